@@ -835,10 +835,28 @@ pub fn nested(f: Fmt, shape: Shape, depth: usize, pattern: u64) -> Vec<u8> {
 			out.push(b'\n');
 		}
 		Fmt::Msgpack => {
+			// Header width per level: all fix, all 16-bit, all 32-bit, or mixed (from the pattern).
+			let mode = (pattern >> 60) & 3;
+			let width = |lvl: usize| -> u8 {
+				match mode {
+					0 => 0,
+					1 => 1,
+					2 => 2,
+					_ => ((pattern.rotate_right((lvl % 61) as u32) ^ (lvl as u64).wrapping_mul(0x85EB_CA6B)) % 3) as u8,
+				}
+			};
+			let header = |out: &mut Vec<u8>, map: bool, w: u8| match (map, w) {
+				(false, 0) => out.push(0x91),
+				(false, 1) => out.extend_from_slice(&[0xdc, 0x00, 0x01]),
+				(false, _) => out.extend_from_slice(&[0xdd, 0x00, 0x00, 0x00, 0x01]),
+				(true, 0) => out.push(0x81),
+				(true, 1) => out.extend_from_slice(&[0xde, 0x00, 0x01]),
+				(true, _) => out.extend_from_slice(&[0xdf, 0x00, 0x00, 0x00, 0x01]),
+			};
 			if shape == Shape::Keys {
 				// {{{...1: nil}: nil}: nil}
-				for _ in 0..depth {
-					out.push(0x81);
+				for l in 0..depth {
+					header(&mut out, true, width(l));
 				}
 				out.push(0x01);
 				for _ in 0..depth {
@@ -847,11 +865,11 @@ pub fn nested(f: Fmt, shape: Shape, depth: usize, pattern: u64) -> Vec<u8> {
 			} else {
 				for l in 0..depth {
 					if is_map(l) {
-						out.push(0x81);
+						header(&mut out, true, width(l));
 						out.push(0xa1);
 						out.push(b'a');
 					} else {
-						out.push(0x91);
+						header(&mut out, false, width(l));
 					}
 				}
 				out.push(0x01);
